@@ -85,6 +85,19 @@ func evalC02Decode(c *Ctx, rp c02Replay) {
 		if !ok || !strings.ContainsRune(allowedRoles[k], rune(r)) {
 			c.Violate("issuer-role", fmt.Sprintf("Decode accepted a %s claim issued by a key of role %c", k, role), rp)
 		}
+		// the kind the returned claims DECLARE must be the kind of the object that was built and role-checked
+		if k != "generic" {
+			declared := string(general.claims.ClaimType())
+			if declared == "" {
+				// a payload that names its kind only inside the nats section but says version 1 migrates with an empty
+				// Type field: lossy, but the object is still of the kind the payload declared - not a kind-safety break
+				c.Count("decode-accepted-empty-type")
+			} else if declared != k {
+				c.Violate("kind-safety", fmt.Sprintf("Decode built %s claims (issuer role checked for that kind) that declare kind %q", k, declared), rp)
+			} else if ar, known := allowedRoles[declared]; known && ok && !strings.ContainsRune(ar, rune(r)) {
+				c.Violate("issuer-role", fmt.Sprintf("Decode accepted claims declaring %s issued by a key of role %c", declared, role), rp)
+			}
+		}
 		c.Count("decode-accepted:" + k + ":" + string(role))
 	} else {
 		c.Count("decode-refused")
@@ -94,6 +107,9 @@ func evalC02Decode(c *Ctx, rp c02Replay) {
 		r := safeDecode("", func() (jwt.Claims, error) { return td.f(tok) })
 		if r.claims != nil && kindOfClaims(r.claims) != td.kind {
 			c.Violate("kind-safety", "Decode"+td.kind+" returned claims of kind "+kindOfClaims(r.claims), rp)
+		}
+		if r.claims != nil && td.kind != "generic" && string(r.claims.ClaimType()) != "" && string(r.claims.ClaimType()) != td.kind {
+			c.Violate("kind-safety", "Decode"+td.kind+" returned claims that declare kind "+string(r.claims.ClaimType()), rp)
 		}
 		if r.claims != nil {
 			// the payload itself must declare that kind
@@ -110,7 +126,7 @@ func evalC02Decode(c *Ctx, rp c02Replay) {
 }
 
 func runC02(c *Ctx) {
-	c.Res.Rule = "complete finite matrix: claim kind (7) x issuer role (operator, account, user, server, cluster, curve) x subject role x layout (v1, v2) x direction. Decode side: forged-but-correctly-signed tokens (payload of a valid token with iss replaced, re-signed by the forged key in the chosen layout), through Decode, DecodeGeneric and every typed decoder. Encode side: every kind x signer role x subject role through the real Encode. Oracle: accepted => issuer role in the property's table and typed decoders only return/accept their own kind; Encode with a non-permitted signer or non-fitting subject => error and empty token. non-trivial = distinct matrix cells."
+	c.Res.Rule = "complete finite matrix: claim kind (7) x issuer role (operator, account, user, server, cluster, curve) x subject role x layout (v1, v2) x direction, plus hybrid payloads (top-level kind K1 with nats.type K2 != K1 and nats.version absent/1/2, all roles, both signing layouts). Decode side: forged-but-correctly-signed tokens (payload of a valid token with iss replaced, re-signed by the forged key in the chosen layout), through Decode, DecodeGeneric and every typed decoder. Encode side: every kind x signer role x subject role through the real Encode. Oracle: accepted => issuer role in the property's table and typed decoders only return/accept their own kind, and the kind the returned claims declare (ClaimType) is the kind of the object built and role-checked; Encode with a non-permitted signer or non-fitting subject => error and empty token. non-trivial = distinct matrix cells."
 	roles := []byte{'O', 'A', 'U', 'N', 'C', 'X'}
 	// ---------- decode side ----------
 	for _, kind := range allKinds {
@@ -148,6 +164,50 @@ func runC02(c *Ctx) {
 					tok := forge(hdr, payload, signer, lay)
 					rp := c02Replay{"decode", kind, string(role), "", layout, tok}
 					evalC02Decode(c, rp)
+				}
+			}
+		}
+	}
+	// ---------- hybrid payloads: a top-level (v1 style) kind AND a different kind/version in the nats section ----------
+	typed := []string{"operator", "account", "user", "activation", "authorization_request", "authorization_response"}
+	for _, k1 := range typed {
+		base, err := validToken(c.R, k1, "v2")
+		must(err)
+		payloadB, _ := b64.DecodeString(strings.Split(base, ".")[1])
+		for _, k2 := range typed {
+			if k1 == k2 {
+				continue
+			}
+			for _, ver := range []int{-1, 1, 2} {
+				for _, role := range roles {
+					for _, layout := range []string{"v2", "v1"} {
+						kp := kpN(role, 5)
+						payload := setJSONPath(string(payloadB), func(m map[string]interface{}) {
+							m["iss"] = pubOf(kp)
+							m["type"] = k1
+							nats, _ := m["nats"].(map[string]interface{})
+							if nats == nil {
+								nats = map[string]interface{}{}
+								m["nats"] = nats
+							}
+							nats["type"] = k2
+							if ver < 0 {
+								delete(nats, "version")
+							} else {
+								nats["version"] = ver
+							}
+						})
+						hdr := hdrV2
+						if layout == "v1" {
+							hdr = hdrV1
+						}
+						var signer nkeys.KeyPair = kp
+						if role == 'X' {
+							signer = nil
+						}
+						tok := forge(hdr, payload, signer, layout)
+						evalC02Decode(c, c02Replay{"decode", k1 + "+" + k2, string(role), "", layout + "-hybrid", tok})
+					}
 				}
 			}
 		}
